@@ -1,5 +1,7 @@
-import Driver.Util
-/-! `drv_logstream`: not built yet -/
+import Driver.LogstreamDrv
+open Driver
+
 def main : IO UInt32 := do
-  IO.eprintln "drv_logstream: engine not implemented"
-  return 2
+  let lines ← readLines (← IO.getStdin) #[]
+  LogstreamDrv.main lines
+  return 0
